@@ -70,7 +70,7 @@ def compress(name: str, s: str) -> str:
 
 
 def prov(name: str, kwargs: dict) -> str:
-    s = name + '(' + ','.join(f'{k}={fmt_val(v)}' for k, v in sorted(kwargs.items())) + ')'
+    s = name + '(' + ','.join(f'{k}={fmt_val(v)}' for k, v in sorted((_key(k), v) for k, v in kwargs.items())) + ')'
     return compress(name, s)
 
 
@@ -93,11 +93,22 @@ def exc_ident(e) -> list:
     return ['Other:' + type(e).__name__, 0, 0, 0]
 
 
+WORLD_INDEX = {'index_of': None}      # fallback when no run context is active (set by engine_run.World)
+
+
 def _node_index(run, node_id):
     try:
         return run.index_of[node_id]
     except Exception:  # noqa
-        return 0
+        try:
+            return WORLD_INDEX['index_of'][node_id]
+        except Exception:  # noqa
+            return 0
+
+
+def _key(k):
+    import enum
+    return k.value if isinstance(k, enum.Enum) else k
 
 
 def exc_ident_str(e) -> str:
